@@ -75,6 +75,7 @@ type Worker struct {
 	minCache    map[string]minEntry
 	Notes       []string
 	Inexhaust   string // non-empty: the unit hit a cap; text says which
+	Unit        string
 }
 
 type minEntry struct {
@@ -185,7 +186,7 @@ func (w *Worker) violation(c Case, o Obs) {
 		return
 	}
 	w.viol[sig] = &Violation{
-		Property: w.Check.ID, Obs: o, Case: c, Min: min, MinObs: minObs, MinExp: minExp, Sig: sig, Count: 1, Shrinks: steps,
+		Property: w.Check.ID, Obs: o, Case: c, Min: min, MinObs: minObs, MinExp: minExp, Sig: sig, Count: 1, Shrinks: steps, Unit: w.Unit,
 	}
 }
 
@@ -262,6 +263,15 @@ type UnitResult struct {
 	Inexhaust   string           `json:"inexhaustive,omitempty"`
 	WallS       float64          `json:"wall_s"`
 	Fatal       string           `json:"fatal,omitempty"` // worker-level failure (hang, crash)
+}
+
+// Sigs lists the signatures recorded so far (history replay).
+func (w *Worker) Sigs() map[string]bool {
+	m := map[string]bool{}
+	for s := range w.viol {
+		m[s] = true
+	}
+	return m
 }
 
 func (w *Worker) Result(unit string, wall float64) *UnitResult {
